@@ -11,7 +11,7 @@
 
    ---- choices (each is a place where the specification leaves room, or where I simplify) ----
    * One target = one TCP peer.  Session handles granted = cfg session_handle + number of sessions
-     granted so far (mod 2^32, never 0); O->T connection ids = cfg conn_id + number of connections
+     granted so far (mod 2^32, never 0); O->T connection ids = cfg conn_id + number of connections (mod 2^32, 0 included)
      granted so far: a re-opened driver gets FRESH values, so a stale handle/id is visible.
    * Frames rejected by the strict parser: EvBadFrame code.  Reply = bare header with encapsulation
      status 0x65 (code 3, length), 0x01 (code 4, command), 0x69 (code 11, protocol version), else
@@ -372,6 +372,8 @@ Fixpoint bytes_eqb (a b : bytes) : bool :=
 Definition same_triple (s v o : Z) (c : conn) : bool := (c_serial c =? s) && (c_vendor c =? v) && (c_oserial c =? o).
 
 Definition norm32 (v : Z) : Z := let w := v mod 4294967296 in if w =? 0 then 1 else w.
+(* connection ids are ANY 32-bit value, 0 included (a target chooses them arbitrarily) *)
+Definition wrap32 (v : Z) : Z := v mod 4294967296.
 
 Definition fo_fail_data (f : fo_req) : bytes :=
   le_enc 2 (fo_serial f) ++ le_enc 2 (fo_vendor f) ++ le_enc 4 (fo_oserial f) ++ [0; 0].
@@ -411,7 +413,7 @@ Definition forward_open {S} (large : bool) (session : Z) (st : tstate S) (rq : m
               else if existsb (same_triple (fo_serial f) (fo_vendor f) (fo_oserial f)) (t_conns st)
                 then refuse 1 [256] (fo_fail_data f)
               else
-                let otid := norm32 (cf_conn_id (t_cfg st) + t_nconns st) in
+                let otid := wrap32 (cf_conn_id (t_cfg st) + t_nconns st) in
                 let c := {| c_serial := fo_serial f; c_vendor := fo_vendor f; c_oserial := fo_oserial f;
                             c_ot_id := otid; c_to_id := fo_to_id f; c_ot_size := ots; c_to_size := tos;
                             c_large := large; c_session := session; c_route := route |} in
